@@ -162,10 +162,13 @@ const (
 	c13PeerExpired   = "expired"
 	c13PeerStolen    = "right-ca-without-key" // presents the valid certificate but signs with another key
 	c13PeerWrongName = "right-ca-wrong-name"  // upstream only: chain verifies, DNS name differs from server_name
+	// issued by the intermediate CA that issued the context's OWN certificate (and travels in its cert_chain); that PKI is not the
+	// configured ca_cert, so the peer does not chain to the configured CA
+	c13PeerOwnIssuer = "issued-by-own-chain-intermediate"
 )
 
-var c13ClientPeerKinds = []string{c13PeerNone, c13PeerSelf, c13PeerOtherCA, c13PeerFakeCA, c13PeerRight, c13PeerExpired, c13PeerStolen}
-var c13UpstreamKinds = []string{c13PeerSelf, c13PeerOtherCA, c13PeerFakeCA, c13PeerRight, c13PeerExpired, c13PeerWrongName}
+var c13ClientPeerKinds = []string{c13PeerNone, c13PeerSelf, c13PeerOtherCA, c13PeerFakeCA, c13PeerRight, c13PeerExpired, c13PeerStolen, c13PeerOwnIssuer}
+var c13UpstreamKinds = []string{c13PeerSelf, c13PeerOtherCA, c13PeerFakeCA, c13PeerRight, c13PeerExpired, c13PeerWrongName, c13PeerOwnIssuer}
 
 // c13ServerAuthExpect: +1 the handshake must succeed, -1 it must fail, 0 the statement does not fix it.
 func c13ServerAuthExpect(verify, require bool, kind string) int {
@@ -186,7 +189,7 @@ func c13UpstreamExpect(skip bool, serverNameSet bool, kind string) int {
 			return +1 // a verifying upstream must be accepted
 		}
 		return 0 // without server_name there is no name to verify against: not fixed
-	case c13PeerSelf, c13PeerOtherCA, c13PeerFakeCA, c13PeerExpired:
+	case c13PeerSelf, c13PeerOtherCA, c13PeerFakeCA, c13PeerExpired, c13PeerOwnIssuer:
 		if !skip {
 			return -1
 		}
@@ -245,6 +248,27 @@ func c13NewCA(cn string) *c13CA {
 	return &c13CA{cert: c, key: k, PEM: c13PEM("CERTIFICATE", der)}
 }
 
+// c13NewIntermediate: a CA certificate issued by parent.
+func c13NewIntermediate(parent *c13CA, cn string) *c13CA {
+	k := c13Key()
+	now := time.Now()
+	t := &x509.Certificate{
+		SerialNumber:          big.NewInt(atomic.AddInt64(&c13Serial, 1)),
+		Subject:               pkix.Name{CommonName: cn, Organization: []string{"verif"}},
+		NotBefore:             now.Add(-72 * time.Hour),
+		NotAfter:              now.Add(240 * time.Hour),
+		KeyUsage:              x509.KeyUsageCertSign | x509.KeyUsageDigitalSignature,
+		BasicConstraintsValid: true,
+		IsCA:                  true,
+	}
+	der, err := x509.CreateCertificate(rand.Reader, t, parent.cert, &k.PublicKey, parent.key)
+	if err != nil {
+		panic(err)
+	}
+	c, _ := x509.ParseCertificate(der)
+	return &c13CA{cert: c, key: k, PEM: c13PEM("CERTIFICATE", der)}
+}
+
 func c13Template(cn string, sans []string, expired bool) *x509.Certificate {
 	now := time.Now()
 	t := &x509.Certificate{
@@ -294,6 +318,10 @@ func c13SelfSigned(cn string, sans []string) *c13Leaf {
 type c13PKI struct {
 	CA   [2]*c13CA
 	Fake [2]*c13CA // same subject DN as CA[i], different key
+	// the contexts' OWN certificates come from a separate PKI: root OwnRoot -> intermediate Own[i] -> leaf; cert_chain carries the
+	// leaf and the intermediate. The configured ca_cert (CA[i]) is unrelated to it.
+	OwnRoot *c13CA
+	Own     [2]*c13CA
 	mu   sync.Mutex
 	leaf map[string]*c13Leaf
 }
@@ -304,6 +332,9 @@ func c13NewPKI() *c13PKI {
 	p.CA[1] = c13NewCA("C13 CA two")
 	p.Fake[0] = c13NewCA("C13 CA one")
 	p.Fake[1] = c13NewCA("C13 CA two")
+	p.OwnRoot = c13NewCA("C13 own-certificate root")
+	p.Own[0] = c13NewIntermediate(p.OwnRoot, "C13 own-certificate issuer one")
+	p.Own[1] = c13NewIntermediate(p.OwnRoot, "C13 own-certificate issuer two")
 	return p
 }
 
@@ -316,7 +347,8 @@ func (p *c13PKI) serverLeaf(slot int, ca int, cn string, sans []string) *c13Leaf
 	if l, ok := p.leaf[key]; ok {
 		return l
 	}
-	l := p.CA[ca].issue(cn, sans, false)
+	l := p.Own[ca].issue(cn, sans, false)
+	l.CertPEM += p.Own[ca].PEM // cert_chain = leaf + issuing intermediate
 	p.leaf[key] = l
 	return l
 }
@@ -344,6 +376,8 @@ func (p *c13PKI) peerLeaf(kind string, ca int, name string) (*c13Leaf, *ecdsa.Pr
 			l = p.CA[ca].issue("peer "+name, sans, true)
 		case c13PeerWrongName:
 			l = p.CA[ca].issue("peer elsewhere", []string{"elsewhere.example"}, false)
+		case c13PeerOwnIssuer:
+			l = p.Own[ca].issue("peer "+name, sans, false)
 		default:
 			panic("unknown peer kind " + kind)
 		}
